@@ -2,7 +2,7 @@
     implementation returned; [check] evaluates the model on the input and compares the projected
     observables (Go maps as lists sorted by key; nested maps with children sorted by key; the
     emitted JSON text byte for byte; result class ok / err / panic). *)
-From GC Require Import Common.Base Model.PlainMap Model.Json.
+From GC Require Import Common.Base Model.PlainMap Model.Json Model.I18n.
 
 Inductive fobs := FOk (m : flatmap) | FErr | FPanic.      (* m sorted by key, keys unique *)
 Inductive tobs := TOk (t : children) | TErr | TPanic.     (* children sorted by key at every level *)
@@ -54,14 +54,9 @@ Definition unflat_match (m : flatmap) (o : tobs) : bool :=
   | _, _ => false
   end.
 
-Fixpoint load_logs (files : list bytes) (store : flatmap) : option flatmap :=
-  match files with
-  | [] => Some store
-  | f :: r => match read_json f with
-              | ROk log => load_logs r (store ++ normalize log)
-              | _ => None
-              end
-  end.
+(** the loader over the selected files in the given order (file names are irrelevant here) *)
+Definition load_logs (files : list bytes) : option flatmap :=
+  run_callbacks (map (fun c => (JSON_SUFFIX, c)) files) [].
 
 Definition check (c : case) : bool :=
   match c with
@@ -81,7 +76,7 @@ Definition check (c : case) : bool :=
     | _, _ => false
     end
   | CLoad files o =>
-    match load_logs files [], o with
+    match load_logs files, o with
     | Some store, FOk m => flat_eqb (normalize store) m
     | None, FErr => true
     | _, _ => false
